@@ -220,7 +220,13 @@ def opRayPoly (req : J) : J :=
   match pose with
   | none => J.obj [("error", J.str "bad pose")]
   | some inv =>
-    J.obj [("hits", J.arr (rays.map (fun r => match rayPolygon inv poly r with
+    let corners : List V3 := match (req.get? "impl").bind (·.get? "corners") with
+      | some (J.arr l) => l.filterMap v3Of
+      | _ => []
+    J.obj [("aabb", match aabbOfPoints corners with
+              | some b => J.arr [jr b.lo.x, jr b.lo.y, jr b.lo.z, jr b.hi.x, jr b.hi.y, jr b.hi.z]
+              | none => J.null),
+           ("hits", J.arr (rays.map (fun r => match rayPolygon inv poly r with
               | some h => jr h.t | none => J.null))),
            ("crossing", J.arr (rays.map (fun r => match planeCrossing inv r with
               | some h => J.obj [("t", jr h.t), ("d2", jo (distSqOutline h.px h.py poly)),
